@@ -656,7 +656,7 @@ def main():
         else:
             assumptions.append('ASSUMED contract (body not proved in any unit): %s' % s['fn'])
     for nc in cfg.get('not_covered', []):
-        assumptions.append('not covered: ' + nc)
+        assumptions.append(('scope of the proof: ' if nc.startswith('PROVED') else ('' if nc.startswith(('not covered', 'RELATIVE TO')) else 'not covered: ')) + nc)
     if kani_res:
         assumptions += kani_res.get('assumptions', [])
     rewrites = {}
